@@ -44,6 +44,13 @@ pushes real implementations of them into `CompassApp.input_plugins`): a plugin t
 queries leaves a state that mixes plain queries and nested arrays, which is de-nested element by element
 (`flatten_denests_mixed_states`, `plugin_step_concatenates`).
 
+Entry points (`Model/BatchEntry.lean`): `get_queries` (`get_queries_spec`, `call_value_spec`), the per-run
+configuration (`run_config_without_keys`, `invalid_run_config_fails_call`), the call as `run`
+(`call_is_run`, `call_multiset`), the response sink (`sink_transparent`, `sink_build_errors`,
+`failing_sink_fails_call` — under both persistence policies since fix 80a5c9a, `discard_policy_with_failing_sink`),
+`CompassAppBindings::run_queries` (`run_queries_spec`), the load-balancer builder
+(`load_balancer_builder_spec`) and the order of the build stages (`build_reports_first_failing_stage`).
+
 The theorems about answering and echoing take the hypothesis that every plugin maps an object to an object or
 a non-empty array of objects (`ObjOp`): proved for grid search, inject, the load balancer and the user-defined
 split / fail-on-marker plugins of the harness (`builtin_plugins_keep_objects`,
@@ -59,6 +66,7 @@ Partial in this sense: real thread interleavings are only sampled by the harness
 "run the next query of my bin" steps; purity of `respond` rests on Rust's aliasing rules (trusted).
 -/
 import Compass.Proofs.Batch
+import Compass.Proofs.BatchEntry
 
 namespace Compass
 namespace C06
@@ -93,9 +101,11 @@ example : chunkSize 5 2 = 3 ∧ chunkSize 0 2 = 1 ∧ chunkSize 5 16 = 1 ∧ chu
 
 /-- **Load balancing is a partition.**  For every parallelism `p ≥ 1`, every weight arithmetic and every
 weight estimates (numbers, other JSON, missing), `apply_load_balancing_policy` neither fails nor panics, makes
-`p` bins, and the bins joined are a permutation of the queries: every query is in exactly one bin. -/
+`min p n` bins for `n` queries (never more bins than queries, fix: a huge `p` used to be allocated and aborted
+the process), and the bins joined are a permutation of the queries: every query is in exactly one bin. -/
 theorem balance_partition {α : Type} (W : WOps α) (p : Nat) (hp : 1 ≤ p) (qs : List Json) :
-    ∃ bins, balanceO W p qs = .ok (.ok bins) ∧ bins.flatten.Perm qs ∧ (qs ≠ [] → bins.length = p) := by
+    ∃ bins, balanceO W p qs = .ok (.ok bins) ∧ bins.flatten.Perm qs ∧
+      (qs ≠ [] → bins.length = min p qs.length) := by
   obtain ⟨bins, h1, h2, h3, _⟩ := balanceO_spec W p hp qs
   exact ⟨bins, h1, h2, h3⟩
 
@@ -606,6 +616,219 @@ theorem cache_collision_counterexample :
   refine ⟨h1, h2, ?_⟩
   rw [h1, h2]
   decide
+
+/-! ## entry points: `get_queries`, the per-run configuration, the response sink, `run_queries` -/
+
+/-- **`get_queries`**: an array is the batch; an object without a `queries` field is a batch of itself; an object
+with a `queries` array is that array; an object whose `queries` is anything else, and every other value, is
+refused (`Err(CompassFailure)` for the call — nothing is run) -/
+theorem get_queries_spec :
+    (∀ qs, getQueries (.arr qs) = some qs) ∧
+    (∀ kvs, Json.lookup kvs queriesKey = none → getQueries (.obj kvs) = some [.obj kvs]) ∧
+    (∀ kvs qs, Json.lookup kvs queriesKey = some (.arr qs) → getQueries (.obj kvs) = some qs) ∧
+    (∀ kvs v, Json.lookup kvs queriesKey = some v → v.isArray = false → getQueries (.obj kvs) = none) ∧
+    (∀ v, v.isArray = false → v.isObject = false → getQueries v = none) := by
+  refine ⟨fun _ => rfl, ?_, ?_, ?_, ?_⟩
+  · intro kvs h; simp [getQueries, h]
+  · intro kvs qs h; simp [getQueries, h]
+  · intro kvs v h hv; cases v <;> simp_all [getQueries, Json.isArray]
+  · intro v ha ho; cases v <;> simp_all [getQueries, Json.isArray, Json.isObject]
+
+/-- `run` offered a JSON value is `run` on the batch `get_queries` makes of it -/
+theorem call_value_spec {α : Type} (W : WOps α) (env : String → Bool × Bool) (app : App)
+    (runCfg : Option Json) (respond : Json → Json) (v : Json) :
+    callValueO W env app runCfg respond v
+      = match getQueries v with
+        | some batch => callO W env app runCfg respond batch
+        | none => .ok (.error .notABatch) := by
+  unfold callValueO; cases getQueries v <;> rfl
+
+/-- a per-run configuration that is absent, or is not a JSON object, overrides nothing -/
+theorem run_config_without_keys (env : String → Bool × Bool) (cfg : Option Json)
+    (h : ∀ c, cfg = some c → c.isObject = false) :
+    ∃ o, parseRunConfig env cfg = some o ∧ o.par = none ∧ o.persist = none ∧ o.policy.isNone = true := by
+  cases cfg with
+  | none => exact ⟨_, rfl, rfl, rfl, rfl⟩
+  | some c =>
+    have hc := h c rfl
+    have hg : ∀ k, c.get? k = none := by intro k; cases c <;> simp_all [Json.get?, Json.isObject]
+    refine ⟨{ par := none, persist := none, policy := none }, ?_, rfl, rfl, rfl⟩
+    simp [parseRunConfig, runConfigKey, hg]
+
+/-- a per-run value that is present and does not deserialize fails the whole call, before anything is run:
+`parallelism` that is not a non-negative integer, an unknown persistence policy, an output policy of the
+wrong shape -/
+theorem invalid_run_config_fails_call {α : Type} (W : WOps α) (env : String → Bool × Bool) (app : App)
+    (c : Json) (respond : Json → Json) (batch : List Json)
+    (h : (∃ v, c.get? "parallelism" = some v ∧ decodeUsize v = none) ∨
+         (∃ v, c.get? "response_persistence_policy" = some v ∧ decodePersist v = none) ∨
+         (∃ v, c.get? "response_output_policy" = some v ∧ decodePolicy env v = none)) :
+    callO W env app (some c) respond batch = .ok (.error .runConfig) := by
+  have hp : parseRunConfig env (some c) = none := by
+    unfold parseRunConfig
+    rcases h with ⟨v, h1, h2⟩ | ⟨v, h1, h2⟩ | ⟨v, h1, h2⟩
+    · simp [runConfigKey, h1, h2]
+    · cases hq : runConfigKey (some c) "parallelism" decodeUsize with
+      | none => rfl
+      | some p => simp [runConfigKey, h1, h2]
+    · cases hq : runConfigKey (some c) "parallelism" decodeUsize with
+      | none => rfl
+      | some p =>
+        cases hr : runConfigKey (some c) "response_persistence_policy" decodePersist with
+        | none => rfl
+        | some q => simp [runConfigKey, h1, h2]
+  simp [callO, hp]
+
+/-- **The call is `run`**: with a valid per-run configuration and a sink that can be built and written (or no
+sink), the call returns exactly what `run` returns under the overridden parallelism and persistence policy —
+so all of the theorems above apply to it -/
+theorem call_is_run {α : Type} (W : WOps α) (env : String → Bool × Bool) (app : App)
+    (runCfg : Option Json) (respond : Json → Json) (batch : List Json) (o : RunOverrides)
+    (hp : parseRunConfig env runCfg = some o) (hb : buildSink (o.policy.getD app.policy) = .ok ())
+    (hw : sinkFails (o.policy.getD app.policy) = false) :
+    callO W env app runCfg respond batch = liftRun (runO W (app.config o) respond batch) := by
+  simp only [callO, hp, hb]
+  exact callCoreO_of_sink_ok W _ _ respond batch hw
+
+/-- a file sink whose file opens, whose flush rate is absent or positive and whose writes succeed changes
+nothing of what is returned -/
+theorem sink_transparent {α : Type} (W : WOps α) (cfg : Config) (s : SinkSpec) (respond : Json → Json)
+    (batch : List Json) (hw : s.writeOk = true) :
+    callCoreO W cfg (.file s) respond batch = callCoreO W cfg .none respond batch := by
+  rw [callCoreO_of_sink_ok W cfg (.file s) respond batch (by simp [sinkFails, hw]),
+    callCoreO_of_sink_ok W cfg .none respond batch rfl]
+
+/-- the sink is built before anything runs: a file that cannot be opened, then a flush rate `≤ 0`, fail the
+call -/
+theorem sink_build_errors (s : SinkSpec) :
+    (s.openOk = false → buildSink (.file s) = .error .sinkOpen) ∧
+    (s.openOk = true → ∀ r, s.flushRate = some r → r ≤ 0 → buildSink (.file s) = .error .flushRate) ∧
+    (s.openOk = true → (∀ r, s.flushRate = some r → 0 < r) → buildSink (.file s) = .ok ()) := by
+  refine ⟨?_, ?_, ?_⟩
+  · intro h; simp [buildSink, h]
+  · intro h r hr hle; simp [buildSink, h, hr, hle]
+  · intro h hr
+    cases hf : s.flushRate with
+    | none => simp [buildSink, h, hf]
+    | some r =>
+      have := hr r hf
+      simp [buildSink, h, hf]; omega
+
+/-- **A sink whose writes fail fails the call — under both persistence policies** (fix 80a5c9a:
+`run_batch_without_responses` dropped the result of its own fold, so under the discard policy every response
+was lost silently and the call returned `Ok`): for parallelism `≥ 1`, as soon as there is one response to
+write — an error response of the input stage or one query to run — the call is `Err`; with nothing to write it
+returns `[]` -/
+theorem failing_sink_fails_call {α : Type} (W : WOps α) (cfg : Config) (s : SinkSpec)
+    (respond : Json → Json) (batch : List Json) (hp : 1 ≤ cfg.parallelism) (hw : s.writeOk = false) :
+    (errs cfg.plugins batch ≠ [] ∨ processed cfg.plugins batch ≠ [] →
+      callCoreO W cfg (.file s) respond batch = .ok (.error .sinkWrite)) ∧
+    (errs cfg.plugins batch = [] → processed cfg.plugins batch = [] →
+      callCoreO W cfg (.file s) respond batch = .ok (.ok [])) := by
+  obtain ⟨bins, hb, hbe⟩ := bins_isEmpty_iff W cfg.parallelism hp (processed cfg.plugins batch)
+  have hf : sinkFails (.file s) = true := by simp [sinkFails, hw]
+  constructor
+  · intro h
+    rw [callCoreO_eq, hb]
+    by_cases he : errs cfg.plugins batch = []
+    · have hq : processed cfg.plugins batch ≠ [] := by
+        rcases h with h | h
+        · exact absurd he h
+        · exact h
+      have hne : bins.isEmpty = false := by
+        cases hx : bins.isEmpty with
+        | false => rfl
+        | true => exact absurd (hbe.mp hx) hq
+      simp [hf, he, hne]
+    · have : (errs cfg.plugins batch).isEmpty = false := by
+        cases hx : (errs cfg.plugins batch).isEmpty with
+        | false => rfl
+        | true => exact absurd (List.isEmpty_iff.mp hx) he
+      simp [hf, this]
+  · intro he hq
+    rw [callCoreO_eq, hb]
+    have : bins.isEmpty = true := hbe.mpr hq
+    simp [hf, he, this]
+
+/-- in particular under the discard policy, whose responses exist nowhere but in the sink -/
+theorem discard_policy_with_failing_sink {α : Type} (W : WOps α) (plugins : List Plugin)
+    (selfPar : Nat) (par : Nat) (s : SinkSpec) (respond : Json → Json) (batch : List Json)
+    (hp : 1 ≤ par) (hw : s.writeOk = false) (hq : processed plugins batch ≠ []) :
+    callCoreO W { plugins := plugins, selfPar := selfPar, runPar := some par, persist := false } (.file s)
+      respond batch = .ok (.error .sinkWrite) :=
+  (failing_sink_fails_call W
+    { plugins := plugins, selfPar := selfPar, runPar := some par, persist := false } s respond batch
+    (by simpa [Config.parallelism] using hp) hw).1 (Or.inr hq)
+
+/-- `CompassAppBindings::run_queries`: when every text is JSON it is the call on the parsed values; one text
+that is not JSON — a query or the configuration — fails the whole call (the texts are made by
+`json.dumps` on the Python side; a malformed text is outside the property's quantifier "JSON value") -/
+theorem run_queries_spec {α : Type} (W : WOps α) (env : String → Bool × Bool) (app : App)
+    (respond : Json → Json) :
+    (∀ (cfg : Option Json) (qs : List Json),
+      runQueriesO W env app (cfg.map some) respond (qs.map some) = callO W env app cfg respond qs) ∧
+    (∀ cfg texts, none ∈ texts → runQueriesO W env app cfg respond texts = .ok (.error .notJson)) ∧
+    (∀ texts, runQueriesO W env app (some none) respond texts = .ok (.error .notJson)) := by
+  refine ⟨?_, ?_, fun _ => rfl⟩
+  · intro cfg qs
+    have h1 : (qs.map some).any Option.isNone = false := by simp
+    have h2 : (qs.map (some : Json → Option Json)).filterMap id = qs := by simp
+    cases cfg with
+    | none => simp [runQueriesO, h1]
+    | some c => simp [runQueriesO, h1]
+  · intro cfg texts h
+    have : texts.any Option.isNone = true := List.any_eq_true.mpr ⟨none, h, rfl⟩
+    cases cfg with
+    | none => simp [runQueriesO, this]
+    | some c => cases c <;> simp [runQueriesO, this]
+
+/-- the call's responses as a multiset: the per-query answers, whatever the entry and the (working) sink -/
+theorem call_multiset {α : Type} (W : WOps α) (env : String → Bool × Bool) (app : App)
+    (runCfg : Option Json) (respond : Json → Json) (batch : List Json) (o : RunOverrides)
+    (hp : parseRunConfig env runCfg = some o) (hb : buildSink (o.policy.getD app.policy) = .ok ())
+    (hw : sinkFails (o.policy.getD app.policy) = false) (hpar : 1 ≤ (app.config o).parallelism) :
+    ∃ out, callO W env app runCfg respond batch = .ok (.ok out) ∧
+      out.Perm (if (app.config o).persist then answers app.plugins respond batch
+                else answersErr app.plugins batch) := by
+  obtain ⟨out, h1, h2⟩ := run_multiset W (app.config o) respond batch hpar
+  exact ⟨out, by rw [call_is_run W env app runCfg respond batch o hp hb hw, h1]; rfl, h2⟩
+
+-- non-vacuity: per-run values that are accepted and refused
+example : decodeUsize (.str "3") = none ∧ decodeUsize .null = none ∧ decodeUsize (.bool true) = none :=
+  ⟨rfl, rfl, rfl⟩
+example : decodePersist (.str "discard_response_from_memory") = some false ∧
+    decodePersist (.obj [("persist_response_in_memory", .null)]) = some true ∧
+    decodePersist (.str "Persist") = none := by decide
+
+/-! ## the load-balancer builder, the build stages -/
+
+/-- `LoadBalancerBuilder::build`: without `weight_heuristic` a missing-field error; a heuristic that is not the
+haversine tag or a well-formed custom weight type a deserialization error; a numeric custom weight without
+`column_name` reads the field `query_weight_estimate` -/
+theorem load_balancer_builder_spec (fmt : Nat → String) :
+    (∀ params, params.get? "weight_heuristic" = none → buildLoadBalancer fmt params = .error .missingField) ∧
+    (∀ params v, params.get? "weight_heuristic" = some v → v.isObject = false →
+      buildLoadBalancer fmt params = .error .serde) ∧
+    decodeCustomWeight fmt (.obj [("type", .str "numeric")]) = some (.lbNumeric weightKey fmt) := by
+  refine ⟨?_, ?_, rfl⟩
+  · intro params h; simp [buildLoadBalancer, h]
+  · intro params v h hv; cases v <;> simp_all [buildLoadBalancer, Json.isObject]
+
+/-- `CompassApp::try_from`: the error reported is the one of the first stage — in the order configuration,
+algorithm, state, traversal, access, cost, frontier, termination, graph, input plugins, output plugins,
+parallelism, search orientation, persistence policy, output policy — that fails; the build succeeds exactly
+when no stage fails -/
+theorem build_reports_first_failing_stage (fails : String → Bool) :
+    (firstFailure fails = none ↔ ∀ s ∈ buildStages, fails s = false) ∧
+    (∀ s, firstFailure fails = some s → fails s = true ∧
+      ∃ pre post, buildStages = pre ++ s :: post ∧ ∀ t ∈ pre, fails t = false) := by
+  refine ⟨firstFailure_none fails, ?_⟩
+  intro s h
+  obtain ⟨h1, _, h3⟩ := firstFailure_some fails s h
+  exact ⟨h1, h3⟩
+
+example : firstFailure (fun s => s == "input_plugins" || s == "parallelism") = some "input_plugins" := by
+  decide +kernel
 
 end C06
 end Compass
